@@ -17,14 +17,14 @@ the real container), and the order `0..n` of `vertex_ids()`.
 Vectors used as stacks (`container`, `component`) are lists with the head = the element pushed last.
 
 Two formulations of the searches, proved equal on every input (`Proofs/Scc.lean`, `allSccIter_eq`):
-* `dfsIter` / `iterLoop` is the code as it is since /repo 1dee70f: `directed_depth_first_search` keeps an
+* `dfsIter` / `iterLoop` is the code as it is since /repo 323fefd: `directed_depth_first_search` keeps an
   explicit list of frames (vertex, incident edges still to follow) and loops `while let Some(frame) =
   frames.last_mut()`; `fuel` bounds the number of turns of that loop.  This is what the driver runs.
 * `dfsG` is the recursive formulation the code had before (one call per vertex of the search tree, `fuel`
   bounds the recursion depth); the Kosaraju proof is carried out on it.
 Exhausting the fuel is the explicit outcome `Err.diverges`; the fuel supplied by `allScc` / `allSccIter` is
 shown to be enough on every `Graph` value whatsoever (`allScc_ne_diverges`, `allSccIter_eq`).  The recursive
-code overflowed the call stack on deep search trees (finding fixed by 1dee70f); the frame list of the current
+code overflowed the call stack on deep search trees (finding fixed by 323fefd); the frame list of the current
 code lives on the heap.
 
 The only import is the graph model of C15 (`Model/Graph.lean`: the `Graph` accessors and the loader), used at
@@ -100,7 +100,7 @@ def iterLoop (inc : Nat → List Nat) (far : Nat → Option Nat) : Nat → List 
       if vis.contains w then iterLoop inc far f ((v, es) :: fr) (vis, st)
       else iterLoop inc far f ((w, inc w) :: (v, es) :: fr) (w :: vis, st)
 
-/-- `directed_depth_first_search` (since /repo 1dee70f) -/
+/-- `directed_depth_first_search` (since /repo 323fefd) -/
 def dfsIter (inc : Nat → List Nat) (far : Nat → Option Nat) (fuel v : Nat) : St → Except Err St
   | (vis, st) =>
     if vis.contains v then .ok (vis, st)
